@@ -103,7 +103,11 @@ class FloatTransformer(BaseEstimator, TransformerMixin):
     def transform(self, X):
         """Transform X using the fitted encoder or passthrough."""
         if isinstance(self.transformer, str) or self.transformer is None:
-            if not type_of_target(X) == self.inferred_type_:
+            inferred_type = type_of_target(X)
+            # A batch that holds only one or two of the (more than two) classes
+            # seen in fit looks "binary"; the encoder still rejects unknown classes.
+            subset_of_classes = self.inferred_type_ == "multiclass" and inferred_type == "binary"
+            if not (inferred_type == self.inferred_type_ or subset_of_classes):
                 raise ValueError("Unknown label type")
             return (
                 self.transform_.transform(self._check(X)).astype(float)
